@@ -130,6 +130,61 @@ def doc_chars(x, acc=None):
     return acc
 
 
+def mval_sx(v):
+    """pydantic model instance -> wire form of the model's [mval]"""
+    from decimal import Decimal
+    from enum import Enum
+    from openjd.model._format_strings import FormatString
+    from openjd.model._types import OpenJDModel
+    if v is None:
+        return "none"
+    if isinstance(v, bool):
+        return ["b", v]
+    if isinstance(v, int):
+        return ["i", v]
+    if isinstance(v, (float, Decimal)):
+        tag = "fl" if isinstance(v, float) else "d"
+        sign, digits, exp = Decimal(str(v)).as_tuple() if isinstance(v, float) else v.as_tuple()
+        m = int("".join(map(str, digits)) or "0")
+        return [tag, -m if sign else m, exp]
+    if isinstance(v, FormatString):
+        return ["f"] + cps(str.__str__(v))
+    if isinstance(v, Enum):
+        return ["s"] + cps(v.value)
+    if isinstance(v, str):
+        return ["s"] + cps(v)
+    if isinstance(v, (list, tuple)):
+        return ["l"] + [mval_sx(x) for x in v]
+    if isinstance(v, dict):
+        return ["m"] + [[cps(k), mval_sx(x)] for k, x in v.items()]
+    if isinstance(v, OpenJDModel):
+        return ["M", type(v).__name__] + [[name, mval_sx(getattr(v, name))] for name in v.__fields__]
+    raise ValueError(f"unexpected value in a model: {type(v)}")
+
+
+def from_wire(j):
+    """wire json -> python value"""
+    if j == "null":
+        return None
+    if j == "true":
+        return True
+    if j == "false":
+        return False
+    t = j[0]
+    if t == "i":
+        return j[1]
+    if t == "d":
+        return ["DEC", j[1], j[2]]
+    if t == "s":
+        return uncps(j[1:])
+    if t == "a":
+        return [from_wire(x) for x in j[1:]]
+    if t == "o":
+        return {uncps(k): from_wire(v) for k, v in j[1:]}
+    raise ValueError(j)
+
+
+
 class Driver:
     """One extracted-model process; batch request/reply."""
 
